@@ -11,10 +11,11 @@ import TypelibModel.Drv.Graph
 import TypelibModel.Drv.Inspect
 import TypelibModel.Drv.Cache
 import TypelibModel.Drv.Routine
+import TypelibModel.Drv.Fields
 open Lean Typelib.Drv
 
 def handlers : List (St → String → Json → Option (Except String (St × Json))) :=
-  [handleCore, handleBinding, handleFuture, handleCtx, handleSlotted, handleGraph, handleInspect, handleCache, handleRoutine]
+  [handleCore, handleBinding, handleFuture, handleCtx, handleSlotted, handleGraph, handleInspect, handleCache, handleRoutine, handleFields]
 
 def step (st : St) (line : String) : St × String :=
   match Json.parse line with
